@@ -279,6 +279,12 @@ class Interp:
             return env[n.id]
         if n.id in ("True", "False", "None"):
             return VConst({"True": True, "False": False, "None": None}[n.id])
+        body = env.get("__classbody__")
+        if body:
+            ci = self.pm.classes.get(body)
+            if ci is not None and (n.id in ci.class_assigns or (n.id in ci.fields and ci.fields[n.id].value is not None)):
+                expr = ci.class_assigns.get(n.id) or ci.fields[n.id].value
+                return self._ev_class_level(body, n.id, expr, ci.module)
         mod = env.get("__module__")
         if mod:
             r = self.pm.resolve(mod, n.id)
@@ -311,10 +317,11 @@ class Interp:
             ci = self.pm.classes.get(c)
             if ci is None:
                 continue
+            # class-level values are evaluated in the class body's scope: names bound earlier in the body are visible
             if attr in ci.class_assigns:
-                return self.ev(ci.class_assigns[attr], {"__module__": ci.module})
+                return self._ev_class_level(c, attr, ci.class_assigns[attr], ci.module)
             if attr in ci.fields and ci.fields[attr].value is not None and self._is_class_constant(c, ci.fields[attr]):
-                return self.ev(ci.fields[attr].value, {"__module__": ci.module})
+                return self._ev_class_level(c, attr, ci.fields[attr].value, ci.module)
             if attr in ci.methods:
                 fi = ci.methods[attr]
                 return VFun(fi.node, {"__module__": fi.module}, fi, recv=VCls(cls))
@@ -322,6 +329,16 @@ class Interp:
             if nested in self.pm.classes:
                 return VCls(nested)
         return None
+
+    def _ev_class_level(self, cls: str, attr: str, expr, module: str):
+        key = "classattr:%s.%s" % (cls, attr)
+        if key in self.stack:
+            return VOpq("?recursive-const")
+        self.stack.append(key)
+        try:
+            return self.ev(expr, {"__module__": module, "__classbody__": cls})
+        finally:
+            self.stack.pop()
 
     def _is_class_constant(self, cls: str, decl) -> bool:
         """an annotated class-level assignment that is a constant of the class rather than a per-instance field:
@@ -377,7 +394,7 @@ class Interp:
                 for c in self.pm.mro(base.cls):
                     ci = self.pm.classes.get(c)
                     if ci is not None and ci.fields.get(n.attr) is decl and self._is_class_constant(c, decl):
-                        return self.ev(decl.value, {"__module__": ci.module})
+                        return self._ev_class_level(c, n.attr, decl.value, ci.module)
             ann = self.pm.field_ann(base.cls, n.attr)
             if ann:
                 return self.from_ann(ann, s)
